@@ -193,9 +193,9 @@ fn gen_key(rng: &mut Rng) -> KeyRef {
     } else {
         let len = match rng.below(4) {
             0 => rng.below(4),
-            1 => rng.below(40),
-            2 => rng.below(300),
-            _ => rng.below(1500),
+            1 => rng.below(24),
+            2 => rng.below(100),
+            _ => rng.below(400),
         } as u16;
         KeyRef::Synth {
             tag: rng.below(256) as u8,
@@ -1517,7 +1517,7 @@ fn main() {
          entry->(vacant: insert|drop)/(occupied: 0..3 gets then optional remove), get, try_insert, remove, \
          reopen of the directory (all handles dropped first), re-clone of the second handle; each operation \
          on handle 0 or on a try_clone/second-open handle; values are DefaultEngine-wrapped keys or synthetic \
-         keys of 0..1500 bytes. The same list runs against MemStore, fs Store (fresh real directory) and a \
+         keys of 0..400 bytes. The same list runs against MemStore, fs Store (fresh real directory) and a \
          BTreeMap model; every observation is compared with the model (hence between stores); after the \
          history the directory is reopened and all 4 ids are read back. distinct = FNV-1a of the JSON \
          operation list; non-trivial = the execution performed at least one reopen, or a get-after-get / \
